@@ -12,6 +12,8 @@ class Ctx:
         for f in project.funcs.values():
             f.build()
         self.kinds = Kinds(project)
+        for f in project.funcs.values():
+            self.kinds.row_names(f)
         self._calls = None
         run.counters['functions'] = len(project.funcs)
 
